@@ -128,3 +128,14 @@ pub open spec fn ratio_double_rounding(f: Fmt, num: int, den: int) -> bool {
     let d = rq_d(num, den, f.p);
     n % d != 0 && enc_inexact(f, num < 0, rq_man(n, d), rq_shift(num, den, f.p))
 }
+// integer/src/shift_ops.rs: `>>` on a UBig reference is floor division by 2^rhs (not used by the unchanged code; lets
+// the "optimised" comparison `r.cmp(&(&den >> 1))` type-check so that the mutant fails by verification)
+impl<'a> core::ops::Shr<usize> for &'a UBig { type Output = UBig;
+    #[verifier::external_body]
+    fn shr(self, rhs: usize) -> UBig { unimplemented!() }
+}
+impl<'a> ShrSpecImpl<usize> for &'a UBig {
+    open spec fn obeys_shr_spec() -> bool { true }
+    open spec fn shr_req(self, rhs: usize) -> bool { true }
+    open spec fn shr_spec(self, rhs: usize) -> UBig { ubig_of(self.v() / pow2(rhs as nat) as int) }
+}
